@@ -16,6 +16,48 @@ from quara.utils.number_util import to_stream
 MT = lambda s: np.random.Generator(np.random.MT19937(s))  # noqa: E731  what the property says an int seed means
 
 
+# ----------------------------------------------------------------------------- stub streams for the public entry points
+class SpliceGen(np.random.Generator):
+    """a genuine MT19937 Generator whose `random(size)` has chosen values (cumulative-sum boundaries, 0.0, +-1 ulp)
+    spliced in at every third position of the *stream* (position counted over successive calls), so boundary
+    uniforms reach the vectorised public functions. Deterministic: a twin built with the same arguments yields the
+    same numbers, which is how the harness knows the uniforms the implementation saw."""
+
+    def __init__(self, seed, values):
+        super().__init__(np.random.MT19937(seed))
+        self._values = [float(v) for v in values]
+        self._drawn = 0
+
+    def random(self, size=None, *a, **kw):
+        r = np.atleast_1d(np.asarray(super().random(size, *a, **kw), dtype=np.float64)).copy()
+        flat = r.reshape(-1)
+        for i in range(flat.size):
+            pos = self._drawn + i
+            if pos % 3 == 0 and pos // 3 < len(self._values):
+                flat[i] = self._values[pos // 3]
+        self._drawn += flat.size
+        return r if size is not None else float(flat[0])
+
+
+def zero_state_generator():
+    """a genuine Generator(MT19937) in the (legal) all-zero key state: random() returns exactly 0.0"""
+    bg = np.random.MT19937(12345)
+    st = bg.state
+    st["state"]["key"][:] = 0
+    bg.state = st
+    return np.random.Generator(bg)
+
+
+def boundary_values(p):
+    """0.0, every cumulative sum (as the sequential float sum the loop computes) and its two neighbours, within [0,1)"""
+    vals = [0.0]
+    for c in np.cumsum(p):
+        for u in (c, np.nextafter(c, 0.0), np.nextafter(c, 2.0)):
+            if 0.0 <= u < 1.0:
+                vals.append(float(u))
+    return vals
+
+
 # ----------------------------------------------------------------------------- generators of inputs
 def prob_vectors(ctx, g, n):
     """structured probability vectors: (kind, np.array). Dyadic ones have exact float cumulative sums."""
@@ -159,6 +201,34 @@ def correspondence(ctx):
         us = MT(seed).random(n)
         pend.append(("data", (p.tolist(), n, seed), [int(x) for x in got], drv.ask("data", qlist(p), qlist(us))))
         ctx.case(("data", tuple(p), n, seed), nontrivial=n > 0, sample={"op": "data", "probs": p.tolist(), "n": n, "seed": seed})
+    # (2b) boundary uniforms through the PUBLIC functions: a spliced / zero-state generator is handed in as seed_or_generator
+    for t, (kind, p) in enumerate(vecs):
+        if not kind.startswith("dyadic"):
+            continue        # exact model: only vectors whose float cumulative sums are exact
+        vals = boundary_values(p)
+        n = 3 * len(vals) + 4
+        seed = seeds[t % len(seeds)]
+        got = dg.generate_data_from_prob_dist(p, n, SpliceGen(seed, vals))
+        us = SpliceGen(seed, vals).random(n)
+        pend.append(("data", (p.tolist(), n, ("splice", seed)), [int(x) for x in got], drv.ask("data", qlist(p), qlist(us))))
+        ctx.case(("data-splice", tuple(p), n, seed), sample={"op": "data", "probs": p.tolist(), "stream": "MT19937 with boundary uniforms spliced in"})
+        ctx.count("public entry points with boundary uniforms")
+        if t % 4 == 0:
+            got = dg.generate_data_from_prob_dist(p, 5, zero_state_generator())
+            pend.append(("data", (p.tolist(), 5, "zero-state"), [int(x) for x in got],
+                         drv.ask("data", qlist(p), qlist(zero_state_generator().random(5)))))
+            k = 3
+            ps = [p, vecs[(t + 1) % len(vecs)][1], p]
+            ps = [x if isinstance(x, np.ndarray) else np.array(x) for x in ps]
+            if all(kk.startswith("dyadic") for kk in (kind, vecs[(t + 1) % len(vecs)][0])):
+                nums = [len(vals), 7, len(vals)]
+                allv = boundary_values(p) + boundary_values(ps[1])
+                gen = SpliceGen(seed, allv)
+                got = dg.generate_dataset_from_prob_dists(ps, nums, [gen] * k)
+                tape = SpliceGen(seed, allv).random(sum(nums))
+                pend.append(("dataset", (k, nums, ("splice", seed)), [[int(x) for x in d] for d in got],
+                             drv.ask("dataset", qlist(tape), "|".join(f"{qlist(pp)}@{nn}" for pp, nn in zip(ps, nums)))))
+                ctx.case(("dataset-splice", t, seed))
     # (3) calc_empi_dist_sequence incl. its validation errors
     for t in range(120 if ctx.quick else 1000):
         m = int(g.integers(1, 7))
@@ -380,6 +450,70 @@ def check_valid(ctx, name, p, data, rep):
         ctx.violate(f"C14/{name}/zero-probability-outcome", f"data contain outcome(s) {sorted(set(data[np.asarray(p)[data] <= 0].tolist()))} of probability 0", rep)
 
 
+def public_boundary(ctx, entry, run, jobs, mk, rep, flat=False):
+    """run(gen) on a stub stream; jobs = [(probs, n), ...] consumed in order from the twin stream mk(); every datum must be
+    the outcome whose cumulative interval [c_{i-1}, c_i) contains its uniform, hence of non-zero probability when u < sum"""
+    try:
+        got = run(mk())
+    except Exception as ex:  # noqa
+        ctx.violate(f"C14/{entry}/boundary-uniforms/raises", f"{type(ex).__name__}: {ex}", rep)
+        return
+    got = [got] if flat else list(got)
+    twin = mk()
+    for (p, n), data in zip(jobs, got):
+        us = np.atleast_1d(twin.random(n)) if n else np.array([])
+        data = [int(x) for x in data]
+        tot = float(np.cumsum(p)[-1])
+        want = [int(x) for x in ref_invert(p, us)] if n else []
+        if len(data) != n:
+            ctx.violate(f"C14/{entry}/boundary-uniforms/length", f"{len(data)} data for {n}", rep); return
+        for u, d, w in zip(us, data, want):
+            if not (0 <= d < len(p)):
+                ctx.violate(f"C14/{entry}/boundary-uniforms/out-of-range", f"u={float(u)!r} -> {d} for {len(p)} outcomes", rep); return
+            if u < tot and p[d] <= 0:
+                ctx.violate(f"C14/{entry}/boundary-uniforms/zero-probability-outcome",
+                            f"u={float(u)!r} -> outcome {d} of probability 0 (probs {np.asarray(p).tolist()})", rep); return
+            if d != w:
+                ctx.violate(f"C14/{entry}/boundary-uniforms/wrong-interval",
+                            f"u={float(u)!r} -> {d}, but u lies in the cumulative interval of outcome {w} (probs {np.asarray(p).tolist()})", rep); return
+
+
+def experiment_boundary(ctx, seeds):
+    """Experiment.generate_data / generate_dataset with distributions that have exact zeros (computational-basis states
+    measured in the z basis, in both orders) and boundary uniforms"""
+    import qobj
+    from quara.qcircuit.experiment import Experiment
+    from quara.objects.state import State
+    from quara.objects.povm import Povm
+    c = qobj.csys("qubit")
+    P0 = np.array([[1, 0], [0, 0]], dtype=complex); P1 = np.array([[0, 0], [0, 1]], dtype=complex)
+    Z3 = np.zeros((2, 2), dtype=complex)
+    st = [State(c, qobj.vec_of(c, P1)), State(c, qobj.vec_of(c, P0))]
+    pv = [Povm(c, [qobj.vec_of(c, P0), qobj.vec_of(c, P1)]), Povm(c, [qobj.vec_of(c, Z3), qobj.vec_of(c, P0), qobj.vec_of(c, P1)], is_physicality_required=False)]
+    sch = [[("state", 0), ("povm", 0)], [("state", 1), ("povm", 0)], [("state", 0), ("povm", 1)], [("state", 1), ("povm", 1)]]
+    try:
+        ex = Experiment(schedules=sch, states=st, povms=pv)
+        pds = [np.asarray(x, dtype=float) for x in ex.calc_prob_dists()]
+    except Exception as e:  # noqa
+        ctx.violate("C14/Experiment/boundary-uniforms/setup-raises", f"{type(e).__name__}: {e}", {"kind": "public-boundary", "entry": "Experiment"}); return
+    ctx.count("Experiment distributions with exact zeros", sum(1 for p in pds if np.any(p == 0)))
+    for i, p in enumerate(pds):
+        vals = boundary_values(p)
+        seed = seeds[i % len(seeds)]
+        n = 3 * len(vals) + 2
+        for sname, mk, nn in (("spliced", lambda: SpliceGen(seed, vals), n), ("zero-state", zero_state_generator, 3)):
+            rep = {"kind": "public-boundary", "entry": "Experiment.generate_data", "schedule": i, "probs": p.tolist(), "stream": sname, "seed": seed}
+            public_boundary(ctx, "Experiment.generate_data", lambda gen: ex.generate_data(i, nn, gen), [(p, nn)], mk, rep, flat=True)
+            ctx.case(("o-exp-boundary", i, sname))
+    allv = [v for p in pds for v in boundary_values(p)]
+    nums = [7, 8, 9, 10]
+    rep = {"kind": "public-boundary", "entry": "Experiment.generate_dataset", "probs": [p.tolist() for p in pds], "stream": "spliced", "seed": seeds[0]}
+    public_boundary(ctx, "Experiment.generate_dataset", lambda gen: ex.generate_dataset(nums, gen), list(zip(pds, nums)),
+                    lambda: SpliceGen(seeds[0], allv), rep)
+    public_boundary(ctx, "Experiment.generate_dataset", lambda gen: ex.generate_dataset([2, 2, 2, 2], gen), list(zip(pds, [2, 2, 2, 2])),
+                    zero_state_generator, dict(rep, stream="zero-state"))
+
+
 # ----------------------------------------------------------------------------- oracle
 def oracle(ctx, volume=1):
     ctx.notes = ["that MT19937 / scipy.stats.multinomial sample the stated distribution is trusted; the 7-sigma frequency check in the oracle is a test, not a proof",
@@ -427,6 +561,30 @@ def oracle(ctx, volume=1):
         for n2, e in es:
             if np.any(e < 0) or abs(e.sum() - 1) > 1e-12 or np.any(np.abs(e * n2 - np.round(e * n2)) > 1e-9) or np.any(e[p <= 0] > 0):
                 ctx.violate("C14/generate_empi_dist_sequence_from_prob_dist/not-counts-over-n", f"n={n2}: {e.tolist()} for probs {p.tolist()}", rep)
+    # (b2) boundary uniforms through the public (vectorised) entry points: stub streams handed in as seed_or_generator
+    fixed_lead = [np.array(x) for x in ([0.0, 1.0], [0.0, 0.5, 0.5], [0.0, 0.0, 1.0], [0.0, 0.2, 0.3, 0.5], [0.25, 0.0, 0.0, 0.75],
+                                        [1e-300, 0.0, 1.0], [0.0] * 3 + [0.125] * 8 + [0.0] * 5)]
+    for t, p in enumerate(fixed_lead + [v for _, v in vecs]):
+        vals = boundary_values(p)
+        n = 3 * len(vals) + 4
+        seed = seeds[t % len(seeds)]
+        streams = [("spliced", lambda: SpliceGen(seed, vals), n)]
+        if t % 3 == 0:
+            streams.append(("zero-state", zero_state_generator, 4))
+        for sname, mk, nn in streams:
+            rep = {"kind": "public-boundary", "entry": "generate_data_from_prob_dist", "probs": p.tolist(), "stream": sname, "seed": seed, "n": nn}
+            public_boundary(ctx, "generate_data_from_prob_dist", lambda gen: dg.generate_data_from_prob_dist(p, nn, gen), [(p, nn)], mk, rep, flat=True)
+        ctx.case(("o-public-boundary", tuple(p), seed))
+        if t % 5 == 0:
+            q2 = fixed_lead[t % len(fixed_lead)]
+            jobs = [(p, len(vals)), (q2, 9), (p, 5)]
+            allv = vals + boundary_values(q2)
+            rep = {"kind": "public-boundary", "entry": "generate_dataset_from_prob_dists", "probs": [x.tolist() for x, _ in jobs],
+                   "nums": [k for _, k in jobs], "stream": "spliced", "seed": seed}
+            public_boundary(ctx, "generate_dataset_from_prob_dists",
+                            lambda gen: dg.generate_dataset_from_prob_dists([x for x, _ in jobs], [k for _, k in jobs], [gen] * 3),
+                            jobs, lambda: SpliceGen(seed, allv), rep)
+    experiment_boundary(ctx, seeds)
     # (c) calc_empi_dist_sequence = counts of the requested prefix / n; cumulative consistency; validation
     for t in range((150 if ctx.quick else 1500) * volume):
         m = int(g.integers(1, 9))
@@ -521,6 +679,15 @@ def replay(ctx, data):
         got = empi_impl(r["m"], r["data"], r["num_sums"])
         print("implementation:", got)
         print("prefix counts:", [(n, np.bincount(r["data"][:n], minlength=max(r["m"], 0)).tolist()) for n in r["num_sums"] if 0 < n <= len(r["data"])])
+    if r["kind"] == "public-boundary" and r.get("entry") == "generate_data_from_prob_dist":
+        p = np.array(r["probs"]); vals = boundary_values(p)
+        mk = (lambda: SpliceGen(r["seed"], vals)) if r["stream"] == "spliced" else zero_state_generator
+        us = np.atleast_1d(mk().random(r["n"]))
+        got = [int(x) for x in dg.generate_data_from_prob_dist(p, r["n"], mk())]
+        want = [int(x) for x in ref_invert(p, us)]
+        bad = [(float(u), d, w) for u, d, w in zip(us, got, want) if d != w or (u < np.cumsum(p)[-1] and p[d] <= 0)]
+        print("probs", p.tolist(), "| stream:", r["stream"], "| (uniform, outcome, outcome of the interval containing it) that differ:", bad[:5])
+        return 1 if bad else 0
     before = len(ctx.violations)
     oracle(ctx)
     sig = data.get("signature")
